@@ -429,6 +429,8 @@ def _name(t, is_m=None) -> str:
 
 
 def _alpha_descr(a: str) -> str:
+    if len(a) > 90:
+        return '{printable ASCII (0x20-0x7E), tab, new-line}'
     names = {' ': 'space', '\t': 'tab', '\n': 'new-line'}
     return '{' + ', '.join(names.get(ch, ch) for ch in a) + '}'
 
@@ -535,7 +537,8 @@ def obligations(tier: str) -> List[Ob]:
         t('K5', ('replace', preserve, None, 'a', 'b'))
         t('K5', ('replace', preserve, None, 'a', '\n'))
         t('K5', ('replace', preserve, None, '[ab]+', ''))
-        t('K5', ('replace', preserve, ('U',), 'a', 'b'))
+        if not (quick and preserve):
+            t('K5', ('replace', preserve, ('U',), 'a', 'b'))
     t('K5', ('replace', False, ('linenum', '=='), 'a|b', 'X'))
     t('K5', ('replace', True, ('contents', ('matches', False, '\\.')), 'a', 'bb'))
     t('K5', ('replace', False, None, '\\.', 'a\nb'))
@@ -545,7 +548,8 @@ def obligations(tier: str) -> List[Ob]:
         t('K5', ('filter', ('linenum', op)))
     t('K5', ('filter', ('contents', ('matches', False, 'a'))))
     t('K5', ('filter', ('contents', ('empty',))))
-    t('K5', ('filter', ('and', ('U',), ('not', ('linenum', '<=')))))
+    if not quick:
+        t('K5', ('filter', ('and', ('U',), ('not', ('linenum', '<=')))))
     for rx in ('a', '^a', 'dot'):
         t('K5', ('grep', rx))
     t('K5', ('strip',), name='seeded-oracle-error', expect=ob.REFUTE, ref_tree=('strip-ts',))
@@ -554,23 +558,41 @@ def obligations(tier: str) -> List[Ob]:
     t('K6', ('seq', ('strip',), ('upper',)), 2 if quick else 3, alphabet='aA \n', timeout=900)
     t('K6', ('seq', ('identity',), ('strip-tnl',)))
     t('K6', ('seq', ('strip-tnl',), ('identity',), ('strip-ts',)))
-    t('K6', ('seq', ('replace', False, None, 'a', '\n'), ('filter', ('linenum', '=='))))
-    t('K6', ('seq', ('filter', ('U',)), ('replace', True, None, 'a', 'b')))
+    t('K6', ('seq', ('replace', False, None, 'a', '\n'), ('filter', ('linenum', '=='))), 2 if quick else 4)
+    if not quick:
+        t('K6', ('seq', ('filter', ('U',)), ('replace', True, None, 'a', 'b')))
     t('K6', ('seq', ('replace', False, None, 'a', 'b'), ('replace', False, None, 'b', 'a')))
     t('K6', ('seq', ('grep', 'a'), ('strip',)))
     t('K6', ('seq', ('strip-ts',), ('seq', ('grep', 'dot'), ('strip-tnl',))))
-    m('K6', ('on', ('strip',), ('equals',)), maxlen_e=1 if quick else 2)
+    if quick:
+        m('K6', ('on', ('strip',), ('equals-lit', 'a')))
+    else:
+        m('K6', ('on', ('strip',), ('equals',)), maxlen_e=2)
     m('K6', ('on', ('identity',), ('empty',)))
     m('K6', ('on', ('filter', ('U',)), ('numlines', '==')))
     m('K6', ('on', ('grep', 'a'), ('and', ('equals-lit', 'a\n'), ('not', ('empty',)))))
     m('K6', ('on', ('replace', True, None, 'a', 'b'), ('every', ('contents', ('matches', True, 'b')))))
     m('K6', ('on', ('seq', ('strip-tnl',), ('replace', False, None, 'a', '\n')), ('numlines', '>=')))
-    m('K6', ('on', ('strip-ts',), ('on', ('filter', ('linenum', '==')), ('equals',))), 2 if quick else 3,
-      maxlen_e=1 if quick else 2, timeout=900)
+    if not quick:
+        m('K6', ('on', ('strip-ts',), ('on', ('filter', ('linenum', '==')), ('equals',))), 3, maxlen_e=2)
     m('K6', ('not', ('on', ('strip',), ('empty',))))
-    t('K6', ('seq', ('replace', False, None, 'a', '\n'), ('filter', ('linenum', '=='))),
+    t('K6', ('seq', ('replace', False, None, 'a', '\n'), ('filter', ('linenum', '=='))), 2 if quick else 3,
       name='seeded-oracle-error', expect=ob.REFUTE,
       ref_tree=('seq', ('filter', ('linenum', '==')), ('replace', False, None, 'a', '\n')))
+
+    # ---- a few primitives over the whole of printable ASCII + tab + new-line
+    ascii_ = ''.join(chr(i) for i in range(32, 127)) + '\t\n'
+    ascii_cases = [('K1', m, ('empty',)), ('K1', m, ('numlines', '==')), ('K5', t, ('strip',)),
+                   ('K5', t, ('replace', True, None, 'a', 'b'))]
+    if not quick:
+        ascii_cases += [('K1', m, ('matches', False, 'a.')), ('K1', m, ('matches', True, '[ab]+')),
+                        ('K2', m, ('every', ('contents', ('empty',)))),
+                        ('K2', m, ('any', ('contents', ('matches', True, 'dot')))),
+                        ('K5', t, ('identity',)), ('K5', t, ('strip-ts',)),
+                        ('K5', t, ('strip-tnl',)), ('K5', t, ('grep', 'a')),
+                        ('K5', t, ('filter', ('contents', ('matches', False, '^a'))))]
+    for kernel, f, tree in ascii_cases:
+        f(kernel, tree, 3 if quick else 4, alphabet=ascii_, name=_name(tree) + '.ascii')
 
     # ---- K7
     def a7(tree, maxlen=None, timeout=300, **kw):
@@ -588,14 +610,14 @@ def obligations(tier: str) -> List[Ob]:
                _P + 'string_matcher.impl.equality._min_num_chars_to_read',
                'exactly_lib.type_val_prims.string_source.string_source.read_lines_as_str__w_minimum_num_chars',
                'exactly_lib.util.str_.read_lines.read_lines_as_str__w_minimum_num_chars')
-    n3 = 3 if quick else 4
+    n3 = 2 if quick else 4
     n3e = 2 if quick else 4
     k3_out = ('both texts depending on external resources (filecmp of two real files): C14-K3', OUT_UNI)
     obs.append(Ob(name='K3:strategies', fn='k3_equality', kernel='K3',
                   case=dict(maxlen=n3, maxlen_e=n3e, alphabet='a \n'),
                   bound='every expected text of <= %d and every actual text of <= %d characters over {a, space, new-line}; '
                         'every combination of the may_depend_on_external_resources flags except both' % (n3e, n3),
-                  timeout=1800, real=real_k3, stubs=(STUB_SRC,), outside=k3_out,
+                  timeout=600 if quick else 3600, real=real_k3, stubs=(STUB_SRC,), outside=k3_out,
                   entry='_EqualityStringMatcher(expected, validator).matches_w_trace(actual)'))
     obs.append(Ob(name='K3:early-stop', fn='k3_equality', kernel='K3',
                   case=dict(maxlen=2, maxlen_e=1 if quick else 2, alphabet='a\n', pad='x' * 119 + '\n' + 'y' * 30),
@@ -634,7 +656,7 @@ def obligations(tier: str) -> List[Ob]:
                       'every result r_i of the i:th substitution, |r_i| <= 1 over {a, new-line}%s' % (
                           L.render_transformer(('replace', preserve, at, 'RX', 'E')), n4,
                           '; every verdict of U per line' if at else ''),
-                timeout=300 if quick else 2400, real=real_k4b, stubs=(STUB_RE, STUB_TMP) + ((STUB_U,) if at else ()),
+                timeout=300 if quick else 3000, real=real_k4b, stubs=(STUB_RE, STUB_TMP) + ((STUB_U,) if at else ()),
                 outside=(OUT_SRC, OUT_UNI),
                 entry='parse_string_transformer.parsers().full -> transform(text).contents().as_lines'))
     obs.append(Ob(name='K4:replace-seeded-oracle-error', fn='k4b_replace_uninterpreted', kernel='K4',
@@ -699,6 +721,14 @@ def selftest(tier) -> int:
 
 
 ASSUMPTIONS = [
+    'tool work-arounds (CrossHair 0.0.110): (1) == between two SYMBOLIC strings can be wrongly False when one side is a '
+    'str.join result and the other a slice (SymbolicList vs SliceView compared as list vs tuple) - the reference and '
+    'the post-conditions therefore compare code point by code point (L.same_str); inside exactly_lib only `equals` '
+    'compares two symbolic strings, where a wrong False would surface as a counterexample that does not replay '
+    '(harness error), not as a pass; (2) re `$` before a final new-line and an empty re.search match at the end of '
+    'the text are mis-modelled - such regexes are not in the family; (3) re.Match.expand does not process backslash '
+    'escapes and realises the template - replacement strings are literals without backslashes (a new-line is '
+    'written as a new-line inside quotes)',
     'integer literals are evaluated by a stub of python_evaluate that maps the placeholder names K0, K1 to symbolic '
     'integers (contract: an integer literal denotes its integer); eval itself is a C boundary',
     'the line matcher U of unknown class returns an arbitrary boolean per line; the StringSource stubs of K3 honour the '
@@ -711,6 +741,10 @@ ASSUMPTIONS = [
 ]
 
 OUTSIDE = [
+    OUT_SRC,
+    'regexes outside the stated family, in particular `$`, regexes that match the empty string under `matches` / '
+    '`replace`, -ignore-case, and backslash escapes / back-references in the replacement string of `replace` '
+    '(what is passed to re.sub is checked in K4; what re.sub makes of it is the semantics of `re`)',
     '`equals` when both texts depend on external resources (file-file comparison): C14-K3',
     'run-program matchers / transformers and replace-test-case-dirs (need processes / a sandbox)',
     'texts longer than the stated bound (the loops are linear in the number of lines; no induction over it)',
